@@ -97,12 +97,12 @@ theorem push_mapRaw_alt (ext : Ext) (b : B) (ops : SMapOps) (h : isAlternating o
 
 theorem interpByKeyOps_eq (ext : Ext) (name : String) (dt : DataType) (n : Bool) (md : Metadata) : ∀ (ops : SMapOps),
     interpByKeyOps ext name dt n md ops = interpByKey ext name dt n md (toEntries ops)
-  | .nil => by simp [interpByKeyOps, toEntries, interpByKey]
+  | .nil => by simp [interpByKeyOps, keyOf_eq, toEntries, interpByKey, keyOf_eq]
   | .key k (.value x rest) => by
-    simp only [interpByKeyOps, toEntries, interpByKey, interpByKeyOps_eq ext name dt n md rest]
-  | .key k .nil => by simp [interpByKeyOps, toEntries, interpByKey]
-  | .key k (.key _ _) => by simp [interpByKeyOps, toEntries, interpByKey]
-  | .value _ _ => by simp [interpByKeyOps, toEntries, interpByKey]
+    simp only [interpByKeyOps, keyOf_eq, toEntries, interpByKey, keyOf_eq, interpByKeyOps_eq ext name dt n md rest]
+  | .key k .nil => by simp [interpByKeyOps, keyOf_eq, toEntries, interpByKey, keyOf_eq]
+  | .key k (.key _ _) => by simp [interpByKeyOps, keyOf_eq, toEntries, interpByKey, keyOf_eq]
+  | .value _ _ => by simp [interpByKeyOps, keyOf_eq, toEntries, interpByKey, keyOf_eq]
 
 theorem interpOps_eq (ext : Ext) (kdt : DataType) (kn : Bool) (kmd : Metadata) (vdt : DataType) (vn : Bool) (vmd : Metadata) :
     ∀ (ops : SMapOps), interpOps ext kdt kn kmd vdt vn vmd ops = interpEntries ext kdt kn kmd vdt vn vmd (toEntries ops)
@@ -115,10 +115,10 @@ theorem interpOps_eq (ext : Ext) (kdt : DataType) (kn : Bool) (kmd : Metadata) (
 
 theorem opsKeysAreStrings_eq : ∀ (ops : SMapOps), isAlternating ops = true →
     opsKeysAreStrings ops = keysAreStrings (toEntries ops)
-  | .nil, _ => by simp [opsKeysAreStrings, toEntries, keysAreStrings]
+  | .nil, _ => by simp [opsKeysAreStrings, specKey_eq, normErr_ok, normErr_error, toEntries, keysAreStrings, specKey_eq, normErr_ok, normErr_error]
   | .key k (.value x rest), h => by
     have h' : isAlternating rest = true := by simpa [isAlternating] using h
-    simp only [opsKeysAreStrings, toEntries, keysAreStrings, opsKeysAreStrings_eq rest h']
+    simp only [opsKeysAreStrings, specKey_eq, normErr_ok, normErr_error, toEntries, keysAreStrings, specKey_eq, normErr_ok, normErr_error, opsKeysAreStrings_eq rest h']
   | .key k .nil, h => by simp [isAlternating] at h
   | .key k (.key _ _), h => by simp [isAlternating] at h
   | .value _ _, h => by simp [isAlternating] at h
